@@ -736,8 +736,35 @@ def creation(B):
     B.obs.append(('de1', B.dump('e1')))
 
 
+def copying(B):
+    d = B.darr
+    a = d.asarray(B.path('s'), B.arr('x', 5, (2,), 'int32', 'big'), metadata={'m': [1, {'n': None}]})
+    c = attempt(B, 'copy', lambda: a.copy(B.path('c1'), chunklen=2))
+    handle(B, 'hc1', c)
+    B.obs.append(('dc1', B.dump('c1')))
+    c = attempt(B, 'copydt', lambda: a.copy(B.path('c2'), dtype='float32'))
+    handle(B, 'hc2', c)
+    B.obs.append(('mc2', sorted(c.metadata.keys())))
+    attempt(B, 'copyexists', lambda: a.copy(B.path('c2')))
+    e = d.create_array(B.path('e'), shape=(0, 2), dtype='int16')
+    c = attempt(B, 'copyempty', lambda: e.copy(B.path('c3')))
+    handle(B, 'hc3', c)
+    r = d.asraggedarray(B.path('r'), [B.arr('r0', 2, (), 'float64', 'big'), B.arr('r1', 0, (), 'float64', 'big')],
+                        metadata={'k': 1})
+    rc = attempt(B, 'rcopy', lambda: r.copy(B.path('rc')))
+    handle_ragged(B, 'hrc', rc)
+    rc2 = attempt(B, 'rcopydt', lambda: r.copy(B.path('rc2'), dtype='float32'))
+    handle_ragged(B, 'hrc2', rc2)
+    B.obs.append(('drc2', B.dump('rc2')))
+    er = d.create_raggedarray(B.path('er'), atom=(2,), dtype='int16')
+    rc3 = attempt(B, 'rcopyempty', lambda: er.copy(B.path('rc3')))
+    if rc3 is not None:
+        handle_ragged(B, 'hrc3', rc3)
+    B.obs.append(('ls', B.listing('rc3')))
+
+
 SCENARIOS = {f.__name__: f for f in [array_basic, array_append, array_truncate, array_assign,
-                                        array_failappend, ragged_basic, ragged_fail, readonly, metadata, baddescr, foreign, datadir, creation]}
+                                        array_failappend, ragged_basic, ragged_fail, readonly, metadata, baddescr, foreign, datadir, creation, copying]}
 
 
 def run(names, stub_readme=True):
